@@ -4,6 +4,7 @@
 
 #include <cmath>
 #include <functional>
+#include <limits>
 
 namespace dsplib {
 namespace window {
@@ -135,26 +136,19 @@ arr_real tukey(int n, real_t r) {
 }
 
 //-------------------------------------------------------------------------------------------------
-template<std::size_t N>
-static std::array<real_t, N> _init_factorials() {
-    std::array<real_t, N> facts;
-    static_assert(N > 3);
-    facts[0] = 1;
-    facts[1] = 1;
-    facts[2] = 2;
-    for (size_t i = 3; i < N; ++i) {
-        facts[i] = facts[i - 1] * i;
-    }
-    return facts;
-}
-
 // zero-order modified Bessel function of the first kind
+// power series sum_k ((x/2)^k / k!)^2, summed until the terms no longer contribute
 static real_t _besseli0(real_t x) {
-    constexpr int num_steps = 15;
-    static const auto factorials = _init_factorials<num_steps>();
-    real_t r = 0;
-    for (int k = 0; k < num_steps; ++k) {
-        r += std::pow(std::pow(x / 2, k) / factorials[k], 2);
+    constexpr int max_steps = 1000;
+    const real_t q = (x / 2) * (x / 2);
+    real_t term = 1;
+    real_t r = 1;
+    for (int k = 1; k < max_steps; ++k) {
+        term *= q / (real_t(k) * k);
+        r += term;
+        if (term < r * std::numeric_limits<real_t>::epsilon() / 8) {
+            break;
+        }
     }
     return r;
 }
